@@ -16,6 +16,41 @@ def run_harness(v, args, seed):
         v.obligation('harness c06 %s ran' % args[0], False, out[-800:])
     return [l for l in out.splitlines() if '\t' in l]
 
+def coq_eval_multi(tag, cases, fns, shard):
+    """like vlib.coq_eval_cases, but evaluates several index-returning functions per shard in one coqc
+    (the case terms are large: parsing them dominates). Returns ({fn: [global indices]}, errors)"""
+    import subprocess, shutil, time
+    d = os.path.join(WORK, 'cases_%s' % tag)
+    shutil.rmtree(d, ignore_errors=True)
+    os.makedirs(d)
+    shards = [cases[i:i + shard] for i in range(0, len(cases), shard)]
+    res = {f: [] for f in fns}
+    errors = []
+    def launch(k):
+        path = os.path.join(d, 's%d.v' % k)
+        with open(path, 'w') as f:
+            f.write('From TV Require Import Base.I32 %s.\nOpen Scope Z_scope.\n' % IMPORTS)
+            f.write('Definition cases : list c06case := [\n' + ';\n'.join(shards[k]) + '\n].\n')
+            for fn in fns:
+                f.write('Goal True. let r := eval vm_compute in (%s 0%%N cases) in idtac "@@RESULT %s" r "@@END". exact I. Qed.\n' % (fn, fn))
+        return subprocess.Popen(['timeout', '1200', 'coqc', '-noglob', '-Q', os.path.join(COQ, 'theories'), 'TV', path],
+                                cwd=d, stdout=subprocess.PIPE, stderr=subprocess.STDOUT, text=True)
+    pending = list(range(len(shards))); running = {}
+    while pending or running:
+        while pending and len(running) < 16:
+            k = pending.pop(0); running[k] = launch(k)
+        for k, p in list(running.items()):
+            if p.poll() is not None:
+                out = p.stdout.read(); del running[k]
+                got = dict(re.findall(r'@@RESULT (\w+)\s*(.*?)@@END', out, re.S))
+                if p.returncode != 0 or set(got) != set(fns):
+                    errors.append('shard %d: coqc failed: %s' % (k, out.strip()[-600:]))
+                else:
+                    for fn in fns:
+                        res[fn] += [k * shard + int(x) for x in re.findall(r'(\d+)%N', got[fn])]
+        time.sleep(0.05)
+    return res, errors
+
 def cfg_of(path):
     m = re.search(r'\.cfg(\d)\.', os.path.basename(path))
     return int(m.group(1)) if m else 0
@@ -23,10 +58,13 @@ def cfg_of(path):
 def main(argv):
     tier, seed, replay = tier_and_seed(argv)
     v = Verdict(PROP, tier, seed)
+    import time as _t
+    t0 = _t.time(); phases = {}
     proofs_ok, h_ok, unrec = standard_proof_steps(
         v, PROP, ['desugar_rules'], ['theories/Props/C06.vo'], ['c06'],
         corr_targets=['theories/Corr/C06.vo'])
 
+    phases['build+audit'] = round(_t.time() - t0, 1); t0 = _t.time()
     cases, texts, cfgs = [], [], []
     oracle = []          # (case index, valuation, description, source, cfg)
     other_fail = []      # desugar failed etc.
@@ -44,7 +82,7 @@ def main(argv):
         else:
             for f in sorted(glob.glob(os.path.join(VERIF, 'corpus', 'C06', '*.txt'))):
                 runs.append(['text', f, cfg_of(f)])
-            runs.append(['gen', 1200 if tier == 'quick' else 40000])
+            runs.append(['gen', 320 if tier == 'quick' else 12000])
         for args in runs:
             base = len(cases)
             for l in run_harness(v, args, seed):
@@ -69,7 +107,8 @@ def main(argv):
         v.violation('implementation-level oracle: ' + f[0] + ': ' + (f[1] if len(f) > 1 else ''),
                     {'class': 'c06-oracle:desugar-failed', 'source_text': f[-2] if len(f) >= 3 else '', 'cfg': int(f[-1]) if f[-1].isdigit() else 0, 'detail': f})
 
-    shard = 60 if tier == 'quick' else 200
+    phases['harness'] = round(_t.time() - t0, 1); t0 = _t.time()
+    shard = 40 if tier == 'quick' else 400
     mism = []
     if v.corr_ok and cases:
         # (O) AstVm before vs after, found by the harness. Every difference must be accounted for by one of the three
@@ -79,10 +118,10 @@ def main(argv):
         sub = [cases[i] for i in ofail]
         tagged = {}
         if sub:
+            res, errs = coq_eval_multi(PROP + 't', sub, ['tag%d_cases' % t for t in (1, 61, 62, 63)], 40)
+            if errs: v.obligation('classification of AstVm before/after differences', False, '; '.join(errs)[:600])
             for tag in (1, 61, 62, 63):
-                idx, errs = coq_eval_cases(PROP + 't%d' % tag, IMPORTS, 'c06case', sub, check_fn='tag%d_cases' % tag, shard=40)
-                if errs: v.obligation('classification of AstVm before/after differences (tag %d)' % tag, False, '; '.join(errs)[:600])
-                for k in idx: tagged.setdefault(ofail[k], set()).add(tag)
+                for k in res['tag%d_cases' % tag]: tagged.setdefault(ofail[k], set()).add(tag)
         n_unexpl = 0
         for i in ofail:
             tags = tagged.get(i, set())
@@ -98,6 +137,7 @@ def main(argv):
         v.obligation('oracle: AstVm before = AstVm after on %d programs x 6 valuations, except %d programs inside the recorded guard classes' % (len(cases), len(ofail) - n_unexpl),
                      n_unexpl == 0, '%d programs with an unexplained difference' % n_unexpl if n_unexpl else '')
 
+        phases['classification'] = round(_t.time() - t0, 1); t0 = _t.time()
         # (X) model vs implementation: invariants, flat statement list, both interpreters
         mism, errs = coq_eval_cases(PROP, IMPORTS, 'c06case', cases, shard=shard)
         v.obligation('correspondence: model = implementation on %d programs (wf invariant, flat list, AstVm nested = run_struct, AstVm flat = run_flat; vm_compute inside Coq)' % len(cases),
@@ -105,9 +145,9 @@ def main(argv):
         if mism:
             sub = [cases[i] for i in mism[:40]]
             why = {}
+            res, _ = coq_eval_multi(PROP + 'd', sub, ['diag%d_cases' % d for d in (1, 2, 3, 4)], 20)
             for d in (1, 2, 3, 4):
-                idx, _ = coq_eval_cases(PROP + 'd%d' % d, IMPORTS, 'c06case', sub, check_fn='diag%d_cases' % d, shard=20)
-                for k in idx: why[mism[k]] = d
+                for k in res['diag%d_cases' % d]: why[mism[k]] = d
             for i in mism[:4]:
                 d = why.get(i, 0)
                 v.violation('model/implementation disagreement: ' + DIAG.get(d, 'unknown component'),
@@ -124,6 +164,8 @@ def main(argv):
         bad = [o for o in v.obligations if not o[1]]
         v.violation('obligation failed: %s' % bad[0][0], {'class': 'c06-obligation', 'broken': [list(b) for b in bad]}, no_failing_input=True)
 
+    phases['correspondence'] = round(_t.time() - t0, 1)
+    v.notes.append('phase seconds: %s' % phases)
     ok_idx = set(range(len(cases))) - set(mism)
     v.coverage.update({
         'evaluations': len(cases) * 6,
